@@ -14,7 +14,7 @@ man = {
     'hooks': {
         'guard': 'verif',
         'enable': 'no source hooks: harnesses live in /verif/harness (a module with `replace github.com/pandatix/go-cvss => /repo`) and use the exported API; the SSA of /repo\'s working tree is regenerated on every run',
-        'baseline_off_cmd': 'cd /repo && GOWORK=off GOFLAGS=-mod=mod GOPROXY=off go test -vet=off -count=1 ./20/... ./30/... ./31/... ./40/... && (cd differential && GOFLAGS=-mod=mod GOPROXY=off go test -vet=off -count=1 ./... || true)',
+        'baseline_off_cmd': 'for m in . differential; do (cd /repo/$m && go test -json -vet=off -count=1 -timeout 25m ./...); done',
         'source_commits': props.HOOK_COMMITS if hasattr(props, 'HOOK_COMMITS') else [],
         'add_only': True,
     },
